@@ -148,6 +148,9 @@ func runFlowCase(c *vf.Ctx, fc *flowCase) *flowResult {
 				s.Rules = append(s.Rules, pgen.Rule{JobPrefix: "TOP/" + pre + "FA/", Bools: ab[0]}, pgen.Rule{JobPrefix: "TOP/" + pre + "FB/", Bools: ab[1]})
 			}
 		}
+		if fc.Template == 20 && len(s.LenChoices) == 0 {
+			s.LenChoices, s.Len1Choices = []int{2, 3}, []int{1, 2} // skeleton 19: non-empty grids
+		}
 		if fc.Template == 13 && len(s.LenChoices) == 0 {
 			s.LenChoices = []int{3} // skeleton 12: three run-time elements
 		}
